@@ -432,6 +432,61 @@ struct TemplateCore {
                                     }
                                 } while (++offset < end_offset);
 
+                                // Every sub tag has to lie inside true="..." or false="...": a tag that was found
+                                // anywhere else (between the attributes, inside a misspelled attribute) means the
+                                // whole inline if is malformed and stays literal text.
+                                if (!is_child) { // (is_child: a '}' inside an attribute value; the tag is not finished yet)
+                                    const SizeT   true_start  = (tag.Offset + tag.TrueOffset);
+                                    const SizeT   true_end    = (true_start + tag.TrueLength);
+                                    const SizeT   false_start = (tag.Offset + tag.FalseOffset);
+                                    const SizeT   false_end   = (false_start + tag.FalseLength);
+                                    const TagBit *v_tag       = tag.SubTags.First();
+                                    const TagBit *v_tag_end   = tag.SubTags.End();
+                                    bool          is_valid    = true;
+
+                                    while (is_valid && (v_tag < v_tag_end)) {
+                                        SizeT sub_start;
+                                        SizeT sub_end;
+
+                                        switch (v_tag->GetType()) {
+                                            case TagType::Variable: {
+                                                const VariableTag &var = v_tag->GetVariableTag();
+                                                sub_start              = (var.Offset - TagPatterns::VariablePrefixLength);
+                                                sub_end = (var.Offset + var.Length + TagPatterns::InLineSuffixLength);
+                                                break;
+                                            }
+
+                                            case TagType::RawVariable: {
+                                                const VariableTag &var = v_tag->GetVariableTag();
+                                                sub_start = (var.Offset - TagPatterns::RawVariablePrefixLength);
+                                                sub_end   = (var.Offset + var.Length + TagPatterns::InLineSuffixLength);
+                                                break;
+                                            }
+
+                                            case TagType::Math: {
+                                                sub_start = v_tag->GetMathTag().Offset;
+                                                sub_end   = v_tag->GetMathTag().EndOffset;
+                                                break;
+                                            }
+
+                                            default: {
+                                                sub_start = 0;
+                                                sub_end   = 0;
+                                                is_valid  = false;
+                                            }
+                                        }
+
+                                        is_valid = (is_valid && (((sub_start >= true_start) && (sub_end <= true_end)) ||
+                                                                 ((sub_start >= false_start) && (sub_end <= false_end))));
+                                        ++v_tag;
+                                    }
+
+                                    if (!is_valid) {
+                                        storage->Drop(SizeT{1});
+                                        break;
+                                    }
+                                }
+
                                 // Set StartID
                                 if ((tag.TrueOffset != SizeT16{0}) || (tag.FalseOffset != SizeT16{0})) {
                                     const TagBit *s_tag     = tag.SubTags.First();
